@@ -291,6 +291,16 @@ func (s *VSeg) Delete() { s.s.delete() }
 // Table is CreateTSTableIfNotExist(0).
 func (s *VSeg) Table() (*VTable, error) { return s.s.CreateTSTableIfNotExist(0) }
 
+// ForceClose releases the segment's series index and shard tables whatever its reference count says. Harness cleanup
+// only: an execution that was aborted by a panic / deadlock in the code under test leaves segments that left the
+// controller's list (deferred delete) open for ever, which leaks their index goroutines and descriptors.
+func (s *VSeg) ForceClose() {
+	defer func() { _ = recover() }()
+	s.s.mu.Lock()
+	defer s.s.mu.Unlock()
+	s.s.closeResourcesLocked()
+}
+
 // TableN is CreateTSTableIfNotExist(id).
 func (s *VSeg) TableN(id int) (*VTable, error) { return s.s.CreateTSTableIfNotExist(common.ShardID(id)) }
 
